@@ -331,6 +331,25 @@ static Verdict run_codec(const CodecCase &c) {
               v.fail(fmt("single-pixel float reader of %s: channel %d of pixel (%d,%d) is %.8f, value/max is %.8Lf", FORMATS[c.src.fmt].name, k, x, y, (double)q[k], wv[k]));
         }
     }
+    // the two canonical representations agree: what the float pipeline reads is, within one 8-bit step, what the 8-bit
+    // pipeline reads (both replicate bits / use the same palette or YUV matrix); this is the only value law that also
+    // applies to indexed and YUV sources, whose decode the statement does not spell out
+    if (v.ok && df == PIXMAN_rgba_float && is_narrow(sf)) {
+      Bits b8 = gen_bits_fixed(fmt_index(PIXMAN_a8r8g8b8), c.w, c.h, 5);
+      auto d8 = make_image(b8);
+      pixman_image_set_transform(src->im, nullptr);
+      pixman_image_composite32(PIXMAN_OP_SRC, src->im, nullptr, d8->im, c.sx, c.sy, 0, 0, 0, 0, c.w, c.h);
+      for (int y = 0; y < c.h && v.ok; y++)
+        for (int x = 0; x < c.w && v.ok; x++) {
+          uint32_t p8 = raw_get(d8->rowp(y), 32, x);
+          const float *q = (const float *)d2->rowp(c.dy + y) + 4 * (c.dx + x);
+          long double w8[4] = {((p8 >> 16) & 0xff) / 255.0L, ((p8 >> 8) & 0xff) / 255.0L, (p8 & 0xff) / 255.0L, (p8 >> 24) / 255.0L};
+          for (int k = 0; k < 4; k++)
+            if (fabsl((long double)q[k] - w8[k]) > 1.0L / 255)
+              v.fail(fmt("%s read by the float pipeline and by the 8-bit pipeline disagree: channel %d of pixel (%d,%d) is %.6f vs %.6Lf", FORMATS[c.src.fmt].name, k, x, y, (double)q[k], w8[k]));
+        }
+      v.label("float_vs_8bit_reader");
+    }
     v.nontrivial = (c.sx * bpp(sf)) % 32 != 0 || is_indexed(sf) || is_yuv(sf);
     v.label(std::string("src_") + FORMATS[c.src.fmt].name);
     return v;
